@@ -330,6 +330,18 @@ def run(ctx):
                                 continue
                             n8b += 1
                             checked = any(x == "call:LpgStore::get_node_versioned" for x in tg)
+                            if not checked and any(x in ("call:Vec::new", "call:Vec::with_capacity") for x in tg):
+                                # a collection filled in a loop: every push of a raw id happens where the versioned lookup of it succeeded
+                                pushes = [(b2, t2) for b2, t2 in g.calls() if callee_name(t2).split("::")[-1] in ("push", "insert", "extend") and len(t2["args"]) > 1
+                                          and any(x.startswith("call:LpgStore::") and x.split("::")[-1] in RAW for x in gx.tags(t2["args"][1]))]
+                                def _pos_versioned(b2):
+                                    for x in gx.facts_at(b2):
+                                        pos = (x[0] == "variant" and x[2] == "Some") or (x[0] in ("call", "bool") and (x[2] is True or x[1] is True))
+                                        flat = str(x)
+                                        if pos and "call:LpgStore::get_node_versioned" in flat:
+                                            return True
+                                    return False
+                                checked = bool(pushes) and all(_pos_versioned(b2) for b2, t2 in pushes)
                             noctx = any(x[0] == "variant" and x[1] == "core::option::Option" and x[2] == "None" and _has(x[3], "cell:%s.viewing_epoch" % tn)
                                         for x in gx.facts_at(db))
                             ctx.ob("R8b", "%s::%s#raw-ids[%d]" % (tn, g.id.split("::")[-1], k), checked or noctx,
